@@ -207,3 +207,45 @@ theorem fsysRun_proj (preds : List (Option (Pred ι μ))) (s : FSys ι μ) (sche
     simp [sysRun, List.foldl_append]
 
 end ScVerif.C08
+
+namespace ScVerif.C08
+open ScVerif.C09
+
+variable {ι μ : Type} [DecidableEq ι]
+
+theorem fsysRun_FInv (preds : List (Option (Pred ι μ))) (s : FSys ι μ) (sched : List (FStep ι μ))
+    (hinv : FInv s) : FInv (fsysRun true preds s sched) := by
+  induction sched generalizing s with
+  | nil => exact hinv
+  | cons st sched ih => exact ih _ (fsysStep_proj preds s st 0 hinv).1
+
+theorem fsysStep_length (preds : List (Option (Pred ι μ))) (s : FSys ι μ) (st : FStep ι μ) :
+    (fsysStep true preds s st).subs.length = s.subs.length := by
+  cases st with
+  | commit op => simp only [fsysStep]; split <;> rfl
+  | sendStart => simp only [fsysStep]; split <;> rfl
+  | sendNext => simp only [fsysStep]; split <;> simp [length_updAt]
+  | deleteNow i => simp only [fsysStep]; split <;> simp
+  | snapshot j => simp [fsysStep, length_updAt]
+  | listen j => simp [fsysStep, length_updAt]
+
+theorem fsysRun_length (preds : List (Option (Pred ι μ))) (s : FSys ι μ) (sched : List (FStep ι μ)) :
+    (fsysRun true preds s sched).subs.length = s.subs.length := by
+  induction sched generalizing s with
+  | nil => rfl
+  | cons st sched ih =>
+    have : fsysRun true preds s (st :: sched) = fsysRun true preds (fsysStep true preds s st) sched := rfl
+    rw [this, ih, fsysStep_length]
+
+/-- subscriber `j`'s own snapshot step is the one-subscriber system's snapshot step -/
+theorem fsysStep_snapshot_proj (preds : List (Option (Pred ι μ))) (s : FSys ι μ) (j : Nat)
+    (hj : j < s.subs.length) :
+    (fsysStep true preds s (.snapshot j)).proj j = sysStep true (preds.getD j none) (s.proj j) .snapshot := by
+  simp only [fsysStep, sysStep, FSys.proj, FSys.pendFor, getD_updAt_self _ _ _ hj]
+  cases s.subs.getD j .idle <;> rfl
+
+theorem fsysRun_append (preds : List (Option (Pred ι μ))) (s : FSys ι μ) (a b : List (FStep ι μ)) :
+    fsysRun true preds s (a ++ b) = fsysRun true preds (fsysRun true preds s a) b := by
+  simp [fsysRun, List.foldl_append]
+
+end ScVerif.C08
